@@ -237,12 +237,24 @@ CAT = {
     "gfa_line": (None, lambda g, l, o, k: (g.line(l.get("name")) if l.get("name") is not None else None, g.line("nope"), g.segment("nope"), g.segment(l))),
     "gfa_try_get": (None, lambda g, l, o, k: (g.try_get_line("nope"))),
     "gfa_select": (None, lambda g, l, o, k: (g.select({"record_type": l.record_type}), g.select(l))),
+    # a criterion the caller built once and passes again (third element: the argument is made once per call pair and
+    # has to be left as it was)
+    "gfa_select_same_dict": (lambda l: l.record_type not in ("#", "H") and len(l.positional_fieldnames) >= 2,
+                             lambda g, l, o, k, crit: g.select(crit), lambda g, l, o, k: _criterion(l, k)),
     "gfa_fragments_for_external": (None, lambda g, l, o, k: (g.fragments_for_external("read1"), g.fragments_for_external("nope"))),
     "gfa_search_duplicate": (None, lambda g, l, o, k: g._search_duplicate(l)),
     "gfa_custom": (None, lambda g, l, o, k: (g.custom_record_keys, g.custom_records_of_type("X"))),
     "gfa_version": (None, lambda g, l, o, k: (g.version, g.dialect, g.vlevel, g.is_rgfa())),
 }
 NAMES = sorted(CAT)
+
+
+def _criterion(l, k):
+    """{record_type, one positional field that is not the name}: what select() is given to find the lines that
+    share a field value with l."""
+    fns = [f for f in l.positional_fieldnames if f != l.__class__.NAME_FIELD] or list(l.positional_fieldnames)
+    f = fns[k % len(fns)]
+    return {"record_type": l.record_type, f: l.get(f)}
 
 
 def prop(case):
@@ -279,7 +291,8 @@ def prop(case):
         fingerprint = globals()["fingerprint"]
     fp = fingerprint(g, canon=canon)
     for step, (name, i, j, k) in enumerate(case["calls"]):
-        pred, fn = CAT[name]
+        pred, fn = CAT[name][:2]
+        make = CAT[name][2] if len(CAT[name]) > 2 else None
         l = lines[i % len(lines)]
         o = lines[j % len(lines)]
         if pred is not None:
@@ -288,11 +301,16 @@ def prop(case):
                 continue
             l = cands[i % len(cands)]
         results = []
+        arg = make(g, l, o, k) if make else None
+        arg0 = repr(norm(sorted(arg.items()))) if make else None
         for rep in range(2):
             try:
-                results.append(norm(fn(g, l, o, k)))
+                results.append(norm(fn(g, l, o, k, arg) if make else fn(g, l, o, k)))
             except Exception as e:
                 results.append(norm(e))
+        if make and repr(norm(sorted(arg.items()))) != arg0:
+            raise Violation("argument-changed", "call %d %s on %r changed the argument the caller passed: %s, now %r\n-- document --\n%s" % (
+                step, name, O.line_text(l), arg0, norm(sorted(arg.items())), "\n".join(lines_t)), name)
         kinds.add(name)
         if name in ("captured_path", "captured_parts", "induced_set", "induced_parts") and not (
                 isinstance(results[0], tuple) and results[0] and results[0][0] == "raised"):
